@@ -44,7 +44,15 @@ Section Frame.
   Variable P : conn -> conn -> Prop.
   Hypothesis P_refl : forall c, P c c.
   Hypothesis P_trans : forall a b c, P a b -> P b c -> P a c.
-  Hypothesis P_tr : forall c f, P c (c <| k_tr ::= f |>).
+  (* which trace items may be appended: the events are restricted per lemma *)
+  Variable ok_item : titem -> Prop.
+  Hypothesis P_emit : forall c x, ok_item x -> P c (emit x c).
+  Hypothesis ok_write : forall w, ok_item (TWrite w).
+  Hypothesis ok_writefail : forall w, ok_item (TWriteFail w).
+  Hypothesis ok_call : forall r, ok_item (TCall r).
+  Hypothesis ok_sockclose : ok_item TSockClose.
+  Hypothesis ok_deflate : forall e i, ok_item (TDeflate e i).
+  Hypothesis ok_inflate : forall e i, ok_item (TInflate e i).
   Hypothesis P_keys : forall c x, P c (c <| k_keys := x |>).
   Hypothesis P_wfaults : forall c x, P c (c <| k_wfaults := x |>).
   Hypothesis P_closing : forall c, P c (c <| k_closing := true |>).
@@ -64,7 +72,7 @@ Section Frame.
 
   Ltac tr := eapply P_trans.
 
-  Lemma fr_emit x c : P c (emit x c). Proof. apply P_tr. Qed.
+  Lemma fr_emit x c : ok_item x -> P c (emit x c). Proof. apply P_emit. Qed.
   Lemma fr_pop_key c : P c (snd (pop_key c)).
   Proof. unfold pop_key. destruct (k_keys c); cbn [snd]; auto. Qed.
   Lemma fr_pop_wfault c : P c (snd (pop_wfault c)).
@@ -75,7 +83,7 @@ Section Frame.
     destruct (k_closing c); [apply P_refl|].
     set (c1 := if f then _ else c). assert (H1 : P c c1) by (unfold c1; destruct f; auto).
     pose proof (fr_pop_wfault c1) as H. destruct (pop_wfault c1) as [w c2]. cbn [snd] in H.
-    destruct w; cbn [fst]; (tr; [exact H1|]); (tr; [exact H|]); apply fr_emit.
+    destruct w; cbn [fst]; (tr; [exact H1|]); (tr; [exact H|]); apply fr_emit; auto.
   Qed.
   Lemma fr_send_frame c op r p : P c (fst (send_frame c op r p)).
   Proof.
@@ -96,7 +104,7 @@ Section Frame.
     destruct z; [|apply fr_send_frame].
     destruct (k_ctape c) as [|zz zs]; destruct (c_reset d);
       repeat (first [apply fr_send_frame | tr; [|apply fr_send_frame]]);
-      repeat (first [apply P_refl | apply fr_emit | apply P_zout | apply P_ctape | tr; [|apply P_zout] | tr; [|apply fr_emit]]).
+      repeat (first [apply P_refl | apply fr_emit; apply ok_deflate | apply P_zout | apply P_ctape | tr; [|apply P_zout] | tr; [|apply fr_emit; apply ok_deflate]]).
   Qed.
   Lemma fr_api_call c a : P c (fst (api_call c a)).
   Proof.
@@ -104,7 +112,7 @@ Section Frame.
       destruct (125 <? _); try apply P_refl; apply fr_send_frame.
   Qed.
   Lemma fr_close_socket c : P c (close_socket c).
-  Proof. unfold close_socket. destruct (k_sock c); [|apply P_refl]. tr; [apply P_sock|apply fr_emit]. Qed.
+  Proof. unfold close_socket. destruct (k_sock c); [|apply P_refl]. tr; [apply P_sock|apply fr_emit; exact ok_sockclose]. Qed.
   Lemma fr_on_disconnect c : P c (on_disconnect c).
   Proof. unfold on_disconnect. tr; [apply fr_close_socket|apply P_done]. Qed.
   Lemma fr_do_actions acts : forall c, P c (fst (do_actions c acts)).
@@ -112,7 +120,7 @@ Section Frame.
     induction acts as [|a acts IH]; intros c; [apply P_refl|].
     destruct a as [cl|w]; cbn [do_actions].
     - pose proof (fr_api_call c cl) as H. destruct (api_call c cl) as [c1 r]. cbn [fst] in H.
-      tr; [exact H|]. tr; [apply fr_emit|apply IH].
+      tr; [exact H|]. tr; [apply fr_emit; apply ok_call|apply IH].
     - apply P_with.
   Qed.
 
@@ -120,13 +128,18 @@ Section Frame.
     Variable cf : cfg.
     Variable app : strategy.
 
-    Lemma fr_deliver c e : P c (fst (deliver app c e)).
-    Proof. unfold deliver. tr; [apply fr_emit|apply fr_do_actions]. Qed.
+    Lemma fr_deliver c e : ok_item (TEv e) -> P c (fst (deliver app c e)).
+    Proof. intros He. unfold deliver. tr; [apply fr_emit; exact He|apply fr_do_actions]. Qed.
+
+    Hypothesis ok_poll : ok_item (TEv EvPoll).
+    Hypothesis ok_unresponsive : ok_item (TEv EvUnresponsive).
 
     Ltac fr_one :=
       match goal with
       | |- context [deliver ?a ?c ?e] =>
-          let H := fresh "Hd" in pose proof (fr_deliver c e) as H; destruct (deliver a c e) as [? ?]; cbn [fst snd] in H
+          let H := fresh "Hd" in
+          assert (H : P c (fst (deliver a c e))) by (apply fr_deliver; first [exact ok_poll | exact ok_unresponsive]);
+          destruct (deliver a c e) as [? ?]; cbn [fst snd] in H
       | |- context [send_frame ?c ?o ?r ?p] =>
           let H := fresh "Hs" in pose proof (fr_send_frame c o r p) as H; destruct (send_frame c o r p) as [? ?]; cbn [fst snd] in H
       | |- context [if ?b then _ else _] =>
@@ -172,42 +185,43 @@ Section Frame.
       - cbn [fst]. apply P_lpong.
     Qed.
 
-    Lemma fr_in_feed_yield c e : P c (fst (in_feed_yield cf app c e)).
+    Lemma fr_in_feed_yield c e : ok_item (TEv e) -> P c (fst (in_feed_yield cf app c e)).
     Proof.
-      unfold in_feed_yield.
+      intros He. unfold in_feed_yield.
       pose proof (fr_on_event c e) as H0. destruct (on_event cf c e) as [c0 st0]. cbn [fst] in H0.
       destruct st0; [|exact H0|exact H0].
-      pose proof (fr_deliver c0 e) as H1. destruct (deliver app c0 e) as [c1 st1]. cbn [fst] in H1.
+      pose proof (fr_deliver c0 e He) as H1. destruct (deliver app c0 e) as [c1 st1]. cbn [fst] in H1.
       destruct st1; cbn [fst]; try (tr; [exact H0|exact H1]).
       tr; [exact H0|]. tr; [exact H1|]. apply fr_regular.
     Qed.
 
     Definition fr_post (post : conn -> conn * status) := forall c, P c (fst (post c)).
 
-    Lemma fr_feed_yield c e post : fr_post post -> P c (fst (feed_yield cf app c e post)).
+    Lemma fr_feed_yield c e post : ok_item (TEv e) -> fr_post post -> P c (fst (feed_yield cf app c e post)).
     Proof.
-      intros Hp. unfold feed_yield.
-      pose proof (fr_in_feed_yield c e) as H. destruct (in_feed_yield cf app c e) as [c1 st]. cbn [fst] in H.
+      intros He Hp. unfold feed_yield.
+      pose proof (fr_in_feed_yield c e He) as H. destruct (in_feed_yield cf app c e) as [c1 st]. cbn [fst] in H.
       destruct st; cbn [fst]; (tr; [exact H|]); [apply Hp|apply fr_on_disconnect|apply fr_on_disconnect].
     Qed.
-    Lemma fr_handler_yield c e post : fr_post post -> P c (fst (handler_yield cf app c e post)).
+    Lemma fr_handler_yield c e post : ok_item (TEv e) -> fr_post post -> P c (fst (handler_yield cf app c e post)).
     Proof.
-      intros Hp. unfold handler_yield.
-      pose proof (fr_in_feed_yield c e) as H. destruct (in_feed_yield cf app c e) as [c1 st]. cbn [fst] in H.
+      intros He Hp. unfold handler_yield.
+      pose proof (fr_in_feed_yield c e He) as H. destruct (in_feed_yield cf app c e) as [c1 st]. cbn [fst] in H.
       destruct st; cbn [fst]; try exact H. tr; [exact H|apply Hp].
     Qed.
 
-    Lemma fr_raise_in_feed c e : P c (fst (raise_in_feed cf app c e)).
+    Lemma fr_raise_in_feed c e : (forall cr, ok_item (TEv (EvProtocolError cr))) ->
+      P c (fst (raise_in_feed cf app c e)).
     Proof.
-      destruct e; unfold raise_in_feed; apply fr_handler_yield; intros c1; cbn [fst]; [apply P_refl|apply fr_ws_close].
+      intros He. destruct e; unfold raise_in_feed; (apply fr_handler_yield; [apply He|]); intros c1; cbn [fst]; [apply P_refl|apply fr_ws_close].
     Qed.
 
     Lemma fr_inflate c d parts : P c (fst (inflate c d parts)).
     Proof.
       unfold inflate. destruct (k_ztape (emit _ c)) as [|r rs]; cbn [fst].
-      - apply fr_emit.
+      - apply fr_emit; apply ok_inflate.
       - destruct r; [destruct (d_reset d)|]; cbn [fst];
-          repeat (first [apply fr_emit | apply P_ztape | apply P_zin | tr; [|apply P_zin] | tr; [|apply P_ztape]]).
+          repeat (first [apply fr_emit; apply ok_inflate | apply P_ztape | apply P_zin | tr; [|apply P_zin] | tr; [|apply P_ztape]]).
     Qed.
 
     Lemma fr_build_message c frames : P c (fst (build_message c frames)).
@@ -232,19 +246,30 @@ Section Frame.
       | |- context [feed_yield cf app c0 ?e ?post] =>
           let H := fresh "H" in
           assert (H : fr_post post) by (intros ?; cbn [fst]; tac);
-          pose proof (fr_feed_yield c0 e post H);
+          pose proof (fr_feed_yield c0 e post ltac:(auto) H);
           destruct (feed_yield cf app c0 e post) as [? ?]; assumption
+      end.
+
+    (* the events a message can produce *)
+    Hypothesis ok_msg_events : forall e,
+      match e with
+      | EvText _ | EvBinary _ | EvPing _ | EvPong _ | EvClosing _ _ | EvClosed _ _ | EvProtocolError _ => ok_item (TEv e)
+      | _ => True
       end.
 
     Lemma fr_on_message c m : P c (fst (fst (on_message cf app c m))).
     Proof.
+      pose proof (fun p => ok_msg_events (EvText p)) as O1. pose proof (fun p => ok_msg_events (EvBinary p)) as O2.
+      pose proof (fun p => ok_msg_events (EvPing p)) as O3. pose proof (fun p => ok_msg_events (EvPong p)) as O4.
+      pose proof (fun a b => ok_msg_events (EvClosing a b)) as O5. pose proof (fun a b => ok_msg_events (EvClosed a b)) as O6.
+      pose proof (fun a => ok_msg_events (EvProtocolError a)) as O7. cbn in O1, O2, O3, O4, O5, O6, O7.
       destruct m; unfold on_message.
       - fy_step c ltac:(apply P_refl).
       - fy_step c ltac:(apply P_refl).
       - fy_step c ltac:(apply P_refl).
       - fy_step c ltac:(apply P_refl).
       - destruct (match code with Some n => invalid_close_code n | None => false end).
-        + pose proof (fr_raise_in_feed c MProtocol) as H. destruct (raise_in_feed cf app c MProtocol). exact H.
+        + pose proof (fr_raise_in_feed c MProtocol O7) as H. destruct (raise_in_feed cf app c MProtocol). exact H.
         + destruct (k_closed c); [apply P_refl|]. destruct (k_closing c).
           * fy_step c ltac:(apply P_done).
           * fy_step c ltac:(tr; [apply fr_ws_close|apply P_closing]).
@@ -266,7 +291,8 @@ End Frame.
 
 (* ---------- instance: the parser state is untouched ---------- *)
 Definition same_ps (c c' : conn) : Prop := k_ps c' = k_ps c.
-Ltac inst_frame L := eapply L; try (intros; reflexivity); try (unfold same_ps; intros; congruence).
+Ltac inst_frame L := eapply L with (P := same_ps) (ok_item := fun _ => True); try (intros; reflexivity); try (unfold same_ps; intros; congruence); try (intros; exact I);
+                       try (intros e0; destruct e0; exact I).
 
 Section WithCfg.
   Variable cf : cfg.
@@ -322,7 +348,8 @@ Section WithCfg.
 
   (* once closed, always closed *)
   Definition closed_mono (c c' : conn) : Prop := k_closed c = true -> k_closed c' = true.
-  Ltac inst_mono L := eapply L; try (unfold closed_mono; intros; cbn; auto; fail); try (unfold closed_mono; intros; eauto).
+  Ltac inst_mono L := eapply L with (P := closed_mono) (ok_item := fun _ => True); try (unfold closed_mono; intros; cbn; auto; fail); try (unfold closed_mono; intros; eauto);
+                      try (intros; exact I).
 
   Lemma closed_feed_yield c e post : (forall c, closed_mono c (fst (post c))) -> closed_mono c (fst (feed_yield cf app c e post)).
   Proof. intros H. inst_mono fr_feed_yield. Qed.
